@@ -43,7 +43,7 @@ TInit ==
   /\ retErr = <<>>
   /\ apc = [j \in 1..R.nc |-> "idle"]
   /\ kpc = [k \in 1..R.ncl |-> "idle"]
-  /\ nrun = 0
+  /\ nrun = 0 /\ rpass = 0
   /\ c = Dummy
   /\ prun = 0 /\ pclose = {} /\ padd = {} /\ gated = 0 /\ mix = {}
 
